@@ -13,6 +13,7 @@
 //! Wire formats.  <escaped text>: bh::unescape_units (\\ \n \r \t \" \uXXXX, anything else literal).
 //! <value> / <dump>: blank separated tokens
 //!     N | T | F | X (undefined, input only) | D<16 hex: binary64 bits> | S<4 hex per code unit>* | [ v* ] | { (K<4 hex per unit>* v)* }
+//!     input only: &n v (label the instance v) | *n (the labelled instance again; inside v itself: a cycle) | J<4 hex per unit>* (JS expression)
 //! <units>: U<4 hex per code unit>*.   <space>: `-` (undefined) | `n<16 hex bits>` (a Number) | `s<4 hex per unit>*` (a String).
 //! The dumper is this file's own walk over the JS value: own keys through `[[OwnPropertyKeys]]` (so the
 //! engine's real key order is observed), every property must be a plain data property
@@ -79,6 +80,7 @@ struct Env {
     plain: JsObject, // (o,k) -> 1 when o[k] is a writable enumerable configurable data property
     obj_proto: JsObject,
     arr_proto: JsObject,
+    labels: std::collections::HashMap<u32, JsValue>, // `&n` instances of the value being built (cleared per case)
 }
 
 impl Env {
@@ -97,7 +99,7 @@ impl Env {
             .unwrap();
         let obj_proto = ctx.intrinsics().constructors().object().prototype();
         let arr_proto = ctx.intrinsics().constructors().array().prototype();
-        Env { ctx, parse, stringify, json, plain, obj_proto, arr_proto }
+        Env { ctx, parse, stringify, json, plain, obj_proto, arr_proto, labels: Default::default() }
     }
 
     fn dump(&mut self, v: &JsValue, out: &mut Vec<String>, depth: usize) {
@@ -195,10 +197,33 @@ impl Env {
     /// objects by CreateDataProperty in the order given (duplicate keys overwrite, the engine decides
     /// the resulting key order), arrays by JsArray::push.
     fn build(&mut self, toks: &[&str], pos: &mut usize) -> Result<JsValue, String> {
+        self.build_l(toks, pos, None)
+    }
+
+    /// `&n` labels the value that follows (a container is registered *before* it is filled, so `*n` inside it makes a
+    /// cycle), `*n` is the same instance again, `J<hex units>` is the value of a JS expression evaluated in this context
+    /// (Map, Set, symbol-keyed / non-enumerable-keyed objects, wrappers, objects with toJSON ...).
+    fn build_l(&mut self, toks: &[&str], pos: &mut usize, label: Option<u32>) -> Result<JsValue, String> {
         let t = *toks.get(*pos).ok_or("eof")?;
         *pos += 1;
         let c = t.chars().next().ok_or("empty token")?;
         match c {
+            '&' => {
+                let n: u32 = t[1..].parse().map_err(|_| "bad label")?;
+                self.build_l(toks, pos, Some(n))
+            }
+            '*' => {
+                let n: u32 = t[1..].parse().map_err(|_| "bad label")?;
+                self.labels.get(&n).cloned().ok_or_else(|| format!("unknown label {n}"))
+            }
+            'J' => {
+                let src = String::from_utf16_lossy(&parse_units(&t[1..]));
+                let v = self.ctx.eval(Source::from_bytes(src.as_bytes())).map_err(|_| "J expression threw")?;
+                if let Some(n) = label {
+                    self.labels.insert(n, v.clone());
+                }
+                Ok(v)
+            }
             'N' => Ok(JsValue::null()),
             'T' => Ok(JsValue::new(true)),
             'F' => Ok(JsValue::new(false)),
@@ -207,6 +232,9 @@ impl Env {
             'S' => Ok(js_string!(&parse_units(&t[1..])[..]).into()),
             '[' => {
                 let a = JsArray::new(&mut self.ctx).map_err(|_| "array")?;
+                if let Some(n) = label {
+                    self.labels.insert(n, JsObject::from(a.clone()).into());
+                }
                 loop {
                     if *toks.get(*pos).ok_or("eof in array")? == "]" {
                         *pos += 1;
@@ -219,6 +247,9 @@ impl Env {
             }
             '{' => {
                 let o = JsObject::with_object_proto(self.ctx.intrinsics());
+                if let Some(n) = label {
+                    self.labels.insert(n, o.clone().into());
+                }
                 loop {
                     let k = *toks.get(*pos).ok_or("eof in object")?;
                     *pos += 1;
@@ -270,6 +301,7 @@ impl Env {
             Err(e) => return format!("badinput {e}"),
         };
         let mut pos = 1;
+        self.labels.clear();
         let v = match self.build(&toks, &mut pos) {
             Ok(v) => v,
             Err(e) => return format!("badinput {e}"),
@@ -309,6 +341,7 @@ fn one(env: &mut Env, line: &str) -> String {
         "dumpval" => {
             let toks: Vec<&str> = rest.split_whitespace().collect();
             let mut pos = 0;
+            env.labels.clear();
             match env.build(&toks, &mut pos) {
                 Ok(v) => {
                     let mut out = Vec::new();
